@@ -2,7 +2,7 @@ SPECIFICATION Spec
 CONSTANTS
   Mods = {"A", "B", "C", "D"}
   Writable = {"A", "B", "C"}
-  Contents <- PoolThorough
+  Contents <- PoolMid
   RenameMovesSignature = FALSE
   RecheckDropsSyntaxErrors = FALSE
   FormatNeedsErrsEntry = FALSE
